@@ -241,7 +241,12 @@ func (vc *VC) declare(name string, line string) {
 }
 
 func (vc *VC) declConst(name string, s Sort) Term {
-	vc.declare(name, fmt.Sprintf("(declare-const %s %s)", name, s))
+	decl := s
+	if s == SPBox || s == SBox {
+		// identities of boxed locals are references (integers) in the queries
+		decl = SInt
+	}
+	vc.declare(name, fmt.Sprintf("(declare-const %s %s)", name, decl))
 	return Term{name, s}
 }
 
